@@ -208,8 +208,9 @@ def check(tier, seed):
         return None
 
     return R.finish(RULE, search=search,
-                    partial_note="C01_D (database-level machine = map for every history) is proved only in part: see Properties/C01.v; "
-                                 "the remaining link is exercised by this run's correspondence cases")
+                    partial_note="C01_D_nonpruning / C01_D_pruning / C01_D_*_batched (database-level machine = map for every history of direct writes and "
+                                 "committed / aborted blocks) are proved; nested blocks, blocks with a failing write, method vs dict syntax and the "
+                                 "calling context rest on this run's correspondence and the dict oracle")
 
 
 def replay(payload):
